@@ -17,28 +17,43 @@ Proof. intros. apply no_deadlock. apply run_inv. apply inv_init. Qed.
 Print Assumptions C09_no_deadlock.
 
 (* 2. ... and never for long: under ANY schedule a task takes at most `progw program` steps in total
-      (8 per write, 9 per open, 3 per close, 1 otherwise), so every granted step is progress towards the end *)
+      (8 per write, 10 per open, 3 per close, 1 otherwise), so every granted step is progress towards the end *)
 Theorem C09_bounded_steps : forall progs buf pend sched t,
   t <> rtid -> (steps_of t (init progs buf pend) sched <= progw (nth t progs []))%nat.
 Proof. intros. apply budget. assumption. Qed.
 Print Assumptions C09_bounded_steps.
 
 (* 3. once the session is closed -- by whatever cause -- and nobody is still inside close(), the transport
-      is shut down and both stream tables are empty *)
+      is shut down and both stream tables hold nothing that any caller can reach: an entry left in them was
+      registered by an open_stream call that had examined the closed flag BEFORE close() ran and allocated its
+      id AFTER the drain (the two are not atomic in the code); that call is still in progress (its SYN not yet
+      attempted) or has already failed and dropped the handle (`late_entry`) *)
 Theorem C09_dead_session : forall progs buf pend sched,
   let s := run (init progs buf pend) sched in
-  closed s = true -> quiescent_close s -> shut s = true /\ table s = [].
+  closed s = true -> quiescent_close s ->
+  shut s = true /\ forall sid u, In (sid, u) (table s) -> late_entry s sid u.
 Proof. exact (fun progs buf pend sched => dead_session_released sched progs buf pend). Qed.
 Print Assumptions C09_dead_session.
 
 (* 3b. ... and every task that holds a stream handle has that stream's inbound queue closed: its reads
-       return what was already queued and then end-of-stream; they never park *)
+       return what was already queued and then end-of-stream; they never park. Exempt: a task whose
+       open_stream is still inside the window above -- it has no handle yet and never gets one (3c) *)
 Theorem C09_readers_released : forall progs buf pend sched,
   let s := run (init progs buf pend) sched in
   closed s = true -> quiescent_close s ->
-  forall u sid, t_sid (tasks s u) = Some sid -> t_rclosed (tasks s u) = true.
+  forall u sid, t_sid (tasks s u) = Some sid -> t_rclosed (tasks s u) = true \/ in_window (pcof s u) sid.
 Proof. exact (fun progs buf pend sched => dead_session_readers sched progs buf pend). Qed.
 Print Assumptions C09_readers_released.
+
+(* 3c. the concurrent open: an open_stream that registered its stream on an already closed session returns
+       SessionClosed two steps later; nothing is written, the caller holds no handle *)
+Theorem C09_concurrent_open_fails : forall s t sid,
+  closed s = true -> pcof s t = PO1 sid ->
+  exists s1 s2, step s t = Some s1 /\ step s1 t = Some s2 /\
+    wire s2 = wire s /\ pending s2 = pending s /\ table s2 = table s /\
+    t_sid (tasks s2 t) = None /\ exists pre, t_res (tasks s2 t) = pre ++ [ResClosed].
+Proof. exact window_open_fails. Qed.
+Print Assumptions C09_concurrent_open_fails.
 
 (* 4. the drain step of close() releases every registered stream: its reader's queue is closed (EOF after the
       data already queued) and its pending open is resolved (with an error if it was still pending) *)
@@ -94,7 +109,7 @@ Print Assumptions C09_lock_discipline.
    fails under the lock holder; after the drain everybody is done, the session is closed, shut and empty *)
 Example C09_nonvacuous :
   let progs := [[]; [COpen; CDisableBuf; CData [1]; CRead]; [COpen; CData [2]; CTimeout]; [CFail]] in
-  let sched := [1;1;1;1;1;1;1;1;1;2;2;2;2;2;2;1;1;2;3;1;2;1;2;1;2;1;2;1;2;1;2;1;2;1;2;1;2;1;2;1;2]%nat in
+  let sched := [1;1;1;1;1;1;1;1;1;1;2;2;2;2;2;2;2;1;1;2;3;1;2;1;2;1;2;1;2;1;2;1;2;1;2;1;2;1;2;1;2;1;2]%nat in
   let s := run (init progs false []) sched in
   closed s = true /\ shut s = true /\ table s = [] /\ quiescent_close s /\
   t_res (tasks s 1%nat) = [ResOk; ResOk; ResIo; ResEof] /\
@@ -102,4 +117,19 @@ Example C09_nonvacuous :
 Proof.
   cbv zeta. repeat split; try (vm_compute; reflexivity).
   intros x. destruct x as [|[|[|[|x]]]]; vm_compute; reflexivity.
+Qed.
+
+(* non-vacuity of the window: task 1 passes the closed check of open_stream, task 2 closes the session
+   completely, then task 1 registers stream 1 in the drained table: the session is dead, the entry is there,
+   task 1 is inside the window; two steps later its open has failed and it holds no handle *)
+Example C09_window_nonvacuous :
+  let progs := [[]; [COpen; CRead]; [CClose]] in
+  let s := run (init progs false []) [1;2;2;2;1]%nat in
+  closed s = true /\ shut s = true /\ quiescent_close s /\ table s = [(1%N, 1%nat)] /\
+  pcof s 1%nat = PO1 1 /\ t_sid (tasks s 1%nat) = Some 1%N /\ t_rclosed (tasks s 1%nat) = false /\
+  let s2 := run s [1;1;1]%nat in
+  t_res (tasks s2 1%nat) = [ResClosed; ResNoStream] /\ t_sid (tasks s2 1%nat) = None /\ wire s2 = [].
+Proof.
+  cbv zeta. repeat split; try (vm_compute; reflexivity).
+  intros x. destruct x as [|[|[|x]]]; vm_compute; reflexivity.
 Qed.
